@@ -40,7 +40,7 @@ class Dispatcher:
         """
         name = Name.normalize(name)
         node = self._tree.setdefault(name, PrefixTreeNode())
-        if node.callback:
+        if node.callback is not None:
             raise ValueError(f'Duplicated registration: {Name.to_str(name)}')
         node.callback = func
 
